@@ -34,6 +34,14 @@ def run(ctx, report):
     report.section("capture regex", capture, ctx, report, folder)
     report.section("WebVTT tags", webvtt_tags, ctx, report, folder)
     report.section("breaks", breaks, ctx, report)
+    from . import reader_doc_fold, srt_doc_fold
+    report.section("generated documents", reader_doc_fold.run, ctx, report, {
+        "cues": ("R-DOC-CUES", "3", "no payload line is taken for structure: one caption per cue"),
+        "text": ("R-DOC-TEXT", "3", "each caption's lines are what a conformant consumer displays (references decoded "
+                                    "once, tags handled, look-alike lines kept)")})
+    report.section("generated SRT documents", srt_doc_fold.run, ctx, report, {
+        "cues": ("R-DOC-CUES", "2", "SRT: a blank-holding separator line still separates cues (no cue absorbs the next)"),
+        "text": ("R-DOC-TEXT", "2", "SRT: each caption holds the text lines of its own cue, line breaks as breaks")})
     report.not_decided += ["entity tables and error recovery of html.parser / lxml", "inline style handling over "
                            "arbitrary nestings", "whitespace collapsing"]
 
@@ -169,21 +177,32 @@ def capture(ctx, report, folder):
                      {"pattern": u.pattern,
                       "obligation": "(line breaks + white space)? followed by one line of text: matched, captured to its end",
                       **({"shortest_text_lost_or_cut": w1} if w1 is not None else {})}, "2")
-        # the only skip condition is "no match"
-        guard = None
-        for n in walk_no_nested(fn.node):
-            if isinstance(n, ast.If) and any(isinstance(c, ast.Call) and (call_name(c) or "").endswith("create_text")
-                                             for c in walk_no_nested(n)) and "isinstance" not in src(n.test):
-                guard = n.test
-            if isinstance(n, ast.If) and isinstance(n.test, ast.UnaryOp) and any(isinstance(s, ast.Return) for s in n.body) \
-                    and "result" in src(n.test):
-                guard = n.test
-        if guard is None:
+        # the only skip condition is "no match": every condition that dominates the creation of the text node is
+        # the dispatch on the node kind or the pattern's own result
+        from ..core.astutil import enclosing_conjuncts
+        creates = [st for st in ast.walk(fn.node) if isinstance(st, (ast.Assign, ast.Expr, ast.Return, ast.AugAssign))
+                   and any(isinstance(c, ast.Call) and (call_name(c) or "").endswith("create_text") for c in ast.walk(st))]
+        if len(creates) != 1:
+            raise AnalysisError(f"{q}: expected one statement creating the text node, found {len(creates)}")
+        conds = enclosing_conjuncts(fn, creates[0], index=ctx.index)
+        if conds is None:
             raise AnalysisError(f"{q}: guard of the text node not found")
-        g = src(guard)
-        ok = re.fullmatch(r"(not )?\w+", g) is not None
-        report.check(ok, "R-GUARD", (fn, guard), "a text node is dropped only when the pattern matched nothing",
-                     {"guard": g, "why": None if ok else "a blank between two inline elements is text: dropping it glues words"}, "2")
+        par = fn.params[1] if len(fn.params) > 1 else "tag"
+        extra, saw_kind, saw_match = [], False, False
+        for c in conds:
+            core = c[5:-1] if c.startswith("not (") and c.endswith(")") else c
+            if re.fullmatch(rf"isinstance\({par}, NavigableString\)", c):
+                saw_kind = True
+            elif re.search(r"\.(search|match|fullmatch)\(", core) and not c.startswith("not ("):
+                saw_match = True
+            elif c.startswith("not (") and re.fullmatch(rf"{par}\.name (==|in) .*", core):
+                pass            # an earlier branch of the dispatch on element names
+            else:
+                extra.append(c)
+        ok = saw_kind and saw_match and not extra
+        report.check(ok, "R-GUARD", (fn, creates[0]), "a text node is dropped only when the pattern matched nothing",
+                     {"conditions_for_creating_the_text_node": conds, "unexpected": extra,
+                      "why": None if ok else "text of the document is left out under a condition other than 'nothing to capture'"}, "2")
 
 
 def webvtt_tags(ctx, report, folder):
